@@ -733,8 +733,7 @@ class Interp:
                         # indexing / comparing / listing it yields arbitrary results (theory 'stale')
                         self.ctx.use(f"stale-state: {nm} not set by the harness -> arbitrary value of unknown shape (left by an earlier call)")
                         vkind = None
-                        mdict = __import__("re").match(r"^(?:Dict|dict)\[\s*\w+\s*,\s*(str|int|bool)\s*\]$", srca.replace("Optional[", "").rstrip("]") + ("]" if srca.startswith("Optional[") else "")) \
-                            or __import__("re").match(r"^(?:Dict|dict)\[\s*\w+\s*,\s*(str|int|bool)\s*\]$", srca)
+                        mdict = __import__("re").match(r"^(?:Optional\[)?(?:Dict|dict)\[.*,\s*(str|int|bool)\s*\]\]?$", srca)
                         if mdict:
                             vkind = mdict.group(1)
                         stale = TheoryObj("stale", label=nm, fields={"__overloads__": True, "vkind": vkind})
@@ -967,6 +966,9 @@ class Interp:
         if len(node.generators) == 1:
             g = node.generators[0]
             itv = self.force(self.eval(g.iter, env))
+            if isinstance(itv, TheoryObj) and itv.theory == "acc":
+                from . import acc as _accmod
+                itv = _accmod.as_symiter(self, itv)
             if isinstance(itv, TheoryObj) and itv.theory == "symiter":
                 # generator over a collection of unknown size: consumed by any()/all() (see pybuiltins)
                 return TheoryObj("symgen", fields={"node": node, "env": env, "iter": itv})
@@ -1903,6 +1905,9 @@ class Interp:
     def s_For(self, node, env):
         spec = self.loop_spec(node)
         itv = self.force(self.eval(node.iter, env))
+        if isinstance(itv, TheoryObj) and itv.theory == "acc":
+            from . import acc as _accmod
+            itv = _accmod.as_symiter(self, itv)
         symbolic_iter = isinstance(itv, (SSeq, SSetZ, SMapZ)) or (isinstance(itv, tuple) and itv and itv[0] == "__range__")
         if isinstance(itv, TheoryObj) and itv.theory in ("reflist", "reflist_enum"):
             if spec is None:
